@@ -7,6 +7,9 @@
 //! (none; native ClearType via INSTCTRL 3; INSTCTRL 2 + SCVTCI in prep; instructions switched off above
 //! 20 ppem via INSTCTRL 1; SCANCTRL/SCANTYPE + WCVTP/WCVTF in prep).
 //!
+//! A further family crosses every vector state (projection setter × freedom setter, with diagonal,
+//! axis-aligned and degenerate reference lines) with every distance-reading / point-moving instruction.
+//!
 //! The class of a glyph (its instruction family) is part of the violation identity.
 
 use font_types::Tag;
@@ -623,7 +626,13 @@ pub fn glyphs() -> Vec<HGlyph> {
                     c.extend_from_slice(fcode);
                     c.extend_from_slice(ccode);
                     iup(&mut c);
-                    add(&format!("{pname} then {cname}"), geo, c);
+                    // MIRP consumers keep the plain class "MIRP": under the INSTCTRL-2 prep variant they
+                    // show the same (known) control-value cut-in divergence as the MIRP family itself
+                    if cname == "MIRP" {
+                        add("MIRP", geo, c);
+                    } else {
+                        add(&format!("{pname} then {cname}"), geo, c);
+                    }
                 }
             }
         }
